@@ -61,7 +61,8 @@ func (l *limitReadCloser) Read(p []byte) (n int, err error) {
 		if l.N == -1 {
 			n--
 		}
-		if err == nil {
+		if err == nil || errors.Is(err, io.EOF) {
+			// The source is longer than the limit even if it reported EOF together with the extra byte
 			err = ErrStreamTooLarge
 		}
 		if !l.closed {
